@@ -4,7 +4,7 @@ use crate::rcgen::{self, SITES_RC};
 use crate::rcworld;
 use crate::runner::{CheckDef, Family, Tier};
 use crate::templates;
-use crate::{ebrworld, pure, seq};
+use crate::{ebrworld, pure, queuelist, seq, tls};
 
 const ASSUME_SC: &str = "only sequentially consistent interleavings at the granularity of one atomic access per step are explored";
 const ASSUME_HOOKS: &str = "circ is built with --cfg circ_verif (yield points, events, read-only shims) and without debug assertions";
@@ -28,6 +28,8 @@ pub fn all() -> Vec<CheckDef> {
                 },
                 Family { name: "T2-upgrade-vs-last-drop", strategy: |_| templates::t2(), cases: |t| t.pick(12_000, 120_000) },
                 Family { name: "T1-two-owner-cascade", strategy: |_| templates::t1(), cases: |t| t.pick(4_000, 40_000) },
+                Family { name: "T4-upgrade-racing-cascade", strategy: |_| templates::t4(), cases: |t| t.pick(12_000, 120_000) },
+                Family { name: "T3-reader-on-chain-harris-unlink", strategy: |_| templates::t3(), cases: |t| t.pick(4_000, 40_000) },
             ],
             exec: rcworld::exec,
             rule: "free random API programs (2-4 threads, <=30 ops each, <=8 schedule directives) and choreography templates over the real library with a shadow ownership model; non-trivial = at least one object destructed, at least one Rc obtained by something other than new, and at least two context switches; distinct = distinct hash of the case",
@@ -43,8 +45,11 @@ pub fn all() -> Vec<CheckDef> {
                     strategy: |_| rcgen::free_case(rcgen::W_STRONG, 4, 30, 8, SITES_RC),
                     cases: |t| t.pick(20_000, 200_000),
                 },
-                Family { name: "T1-two-owner-cascade", strategy: |_| templates::t1(), cases: |t| t.pick(16_000, 160_000) },
+                Family { name: "T1-two-owner-cascade", strategy: |_| templates::t1(), cases: |t| t.pick(40_000, 400_000) },
                 Family { name: "T2-upgrade-vs-last-drop", strategy: |_| templates::t2(), cases: |t| t.pick(4_000, 40_000) },
+                Family { name: "T3-reader-on-chain-harris-unlink", strategy: |_| templates::t3(), cases: |t| t.pick(16_000, 160_000) },
+                Family { name: "T4-upgrade-racing-cascade", strategy: |_| templates::t4(), cases: |t| t.pick(12_000, 120_000) },
+                Family { name: "T5-install-into-unlinked-node", strategy: |_| templates::t5(), cases: |t| t.pick(12_000, 120_000) },
             ],
             exec: rcworld::exec,
             rule: "free programs and templates (reader / unlinker / stalled dropper / collector); non-trivial = an object was destructed while another thread was inside a critical section in which it holds at least one snapshot (the O-snap oracle was evaluated against a non-empty holding set of a peer); distinct = distinct hash of the case",
@@ -65,6 +70,8 @@ pub fn all() -> Vec<CheckDef> {
                     strategy: |_| rcgen::seq_case(rcgen::W_WEAK, 40),
                     cases: |t| t.pick(10_000, 100_000),
                 },
+                Family { name: "T6-zero-weak-recount", strategy: |_| templates::t6(), cases: |t| t.pick(30_000, 300_000) },
+                Family { name: "T4-upgrade-racing-cascade", strategy: |_| templates::t4(), cases: |t| t.pick(4_000, 40_000) },
             ],
             exec: rcworld::exec,
             rule: "weak-biased free programs (concurrent and sequential); non-trivial = at least one block was freed strictly after its object had been destructed, with a weak holder (Weak, AtomicWeak content or WeakSnapshot) having referred to it in between; distinct = distinct hash of the case",
@@ -90,6 +97,10 @@ pub fn all() -> Vec<CheckDef> {
                     strategy: |_| rcgen::free_case(rcgen::W_WEAK, 3, 30, 6, SITES_RC),
                     cases: |t| t.pick(6_000, 60_000),
                 },
+                Family { name: "T2-upgrade-vs-last-drop", strategy: |_| templates::t2(), cases: |t| t.pick(12_000, 120_000) },
+                Family { name: "T4-upgrade-racing-cascade", strategy: |_| templates::t4(), cases: |t| t.pick(8_000, 80_000) },
+                Family { name: "T6-zero-weak-recount", strategy: |_| templates::t6(), cases: |t| t.pick(8_000, 80_000) },
+                Family { name: "T3-reader-on-chain-harris-unlink", strategy: |_| templates::t3(), cases: |t| t.pick(6_000, 60_000) },
             ],
             exec: rcworld::exec,
             rule: "sequential and concurrent programs that build object graphs (edges only from lower to higher rank, weak edges unrestricted) and release them in generated order; non-trivial = at least 3 objects, at least one reclaimed through the cascade and at least one as a deferred root; distinct = distinct hash of the case",
@@ -111,6 +122,8 @@ pub fn all() -> Vec<CheckDef> {
                     cases: |t| t.pick(16_000, 160_000),
                 },
                 Family { name: "T2-upgrade-vs-last-drop", strategy: |_| templates::t2(), cases: |t| t.pick(12_000, 120_000) },
+                Family { name: "T4-upgrade-racing-cascade", strategy: |_| templates::t4(), cases: |t| t.pick(16_000, 160_000) },
+                Family { name: "T6-zero-weak-recount", strategy: |_| templates::t6(), cases: |t| t.pick(4_000, 40_000) },
             ],
             exec: rcworld::exec,
             rule: "programs with Weak::upgrade / WeakSnapshot::upgrade around the destruction of their object; non-trivial = the case contains a successful and a failed upgrade, or an upgrade during which another thread took steps; distinct = distinct hash of the case",
@@ -131,6 +144,7 @@ pub fn all() -> Vec<CheckDef> {
                     strategy: |_| rcgen::free_case(rcgen::W_CELL, 4, 24, 8, SITES_RC),
                     cases: |t| t.pick(20_000, 200_000),
                 },
+                Family { name: "T7-restamp-then-cas", strategy: |_| templates::t7(), cases: |t| t.pick(16_000, 160_000) },
             ],
             exec: rcworld::exec,
             rule: "programs hammering AtomicRc cells with load/store/swap/compare_exchange(_weak)/compare_exchange_tag; non-trivial = at least one successful and one failed CAS; distinct = distinct hash of the case",
@@ -151,6 +165,7 @@ pub fn all() -> Vec<CheckDef> {
                     strategy: |_| rcgen::free_case(rcgen::W_WCELL, 4, 24, 8, SITES_RC),
                     cases: |t| t.pick(20_000, 200_000),
                 },
+                Family { name: "T7w-restamp-then-weak-cas", strategy: |_| templates::t7w(), cases: |t| t.pick(16_000, 160_000) },
             ],
             exec: rcworld::exec,
             rule: "programs hammering AtomicWeak cells; non-trivial = at least one successful and one failed CAS; distinct = distinct hash of the case",
@@ -280,6 +295,33 @@ pub fn all() -> Vec<CheckDef> {
             rule: "programs over <=3 nested guards per thread created, dropped in any order, reactivated, reactivate_after'ed with collection rounds inside the closure and with panicking closures, the same API used from inside deferred functions during collection, next to peers that advance the epoch. Model: pinned <=> live guards > 0 and guard count equal, compared with the participant's real state after every op; reactivate on a non-sole guard leaves the announced epoch unchanged, on the sole guard re-pins at the current epoch, the thread is unpinned inside the closure only then, and is pinned again afterwards also on panic. Non-trivial = nesting depth >= 2 and at least one reactivation; distinct = distinct hash of the case",
             timeout_s: t60,
             assumptions: vec![ASSUME_SC, ASSUME_HOOKS],
+            shards: s16,
+        },
+        CheckDef {
+            id: "C17",
+            families: vec![Family { name: "queue-histories", strategy: |_| queuelist::queue_strategy(), cases: |t| t.pick(60_000, 600_000) }],
+            exec: queuelist::exec_c17,
+            rule: "2-4 scheduled threads, <=8 ops each (push of a unique value, try_pop, try_pop_if with a generated threshold on the element's low byte) on the collector's internal queue type, optionally prefilled, with preemption at the queue's loads/CASes (tail lag, head/tail crossing). Oracle: the complete invocation/response history (plus the final drain) must have a linearisation accepted by the sequential FIFO specification with conditional pop (Wing-Gong search, memoised), no value popped twice or invented, pushed = popped + drained. Non-trivial = operations of two threads overlapped and at least one conditional pop was refused; distinct = distinct hash of the case",
+            timeout_s: t60,
+            assumptions: vec![ASSUME_SC, ASSUME_HOOKS],
+            shards: s16,
+        },
+        CheckDef {
+            id: "C18",
+            families: vec![Family { name: "list-histories", strategy: |_| queuelist::list_strategy(), cases: |t| t.pick(60_000, 600_000) }],
+            exec: queuelist::exec_c18,
+            rule: "2-4 scheduled threads, <=8 ops each (insert, logical delete once by the owner or of a prefilled element, full traversal) on the collector's internal intrusive list type, with preemption inside insert's CAS loop, the iterator's unlink CAS and the delete mark. Oracle: a traversal that completed without reporting a stall visited every element whose insert had returned before the traversal was invoked and whose delete was not invoked before it returned; no element is visited before its insert was invoked; after deleting everything and clean-up traversals every element was finalized exactly once and the list is empty. Non-trivial = a traversal overlapped both an insert and a delete; distinct = distinct hash of the case",
+            timeout_s: t60,
+            assumptions: vec![ASSUME_SC, ASSUME_HOOKS],
+            shards: s16,
+        },
+        CheckDef {
+            id: "C20",
+            families: vec![Family { name: "thread-lifecycles", strategy: |_| tls::strategy(), cases: |t| t.pick(30_000, 300_000) }],
+            exec: tls::exec,
+            rule: "a short-lived thread with up to three thread-local objects initialised in a generated order relative to circ's participant handle (so that their destructors run before or after the handle's), each destructor performing a generated list of API actions (pin, nested pin, flush, drop Rc/Weak, new+drop, chains, upgrade, load/store/swap on a shared cell, collection rounds, reactivate), a generated body, 0..130 deferrals pending at exit, and threads that first use the library inside a destructor. Oracle: join() returns Ok, no crash, and the surviving thread's collection rounds destruct and free every object the thread created. Non-trivial = at least one API action ran in a destructor after the thread's participant handle had been destroyed; distinct = distinct hash of the case",
+            timeout_s: t60,
+            assumptions: vec![ASSUME_HOOKS, "glibc runs thread-local destructors in reverse order of registration (the library's own pin_while_exiting test relies on the same)", "a hang is reported as inconclusive (exit 2), never as a violation"],
             shards: s16,
         },
     ]
